@@ -306,7 +306,13 @@ class API:
                     # request (e.g. traits) keep their old values.
                     _check_capacity(cell, allocation, cell_alloc)
 
-                    admin_cell_alloc.update([cell, allocation], cell_alloc)
+                    # An empty list is not written by the directory layer (the
+                    # attribute would keep its old values): to store what was
+                    # checked, traits that were removed are cleared explicitly.
+                    attrs = cell_alloc
+                    if 'traits' in cell_alloc and not cell_alloc['traits']:
+                        attrs = dict(cell_alloc, traits=None)
+                    admin_cell_alloc.update([cell, allocation], attrs)
                     return cell_alloc
 
                 @schema.schema({'$ref': 'reservation.json#/resource_id'})
